@@ -1,6 +1,6 @@
 (** * Sem2: mini-semantics of the forwarding bodies of trait mode (C06) and static dependency inversion (C07) *)
 From Coq Require Import List String Ascii Bool Arith Lia.
-From Entrait Require Import Tok Syn Opts FnParams Codegen Expand Proj Proj2 Proj3.
+From Entrait Require Import Tok Syn Opts FnParams Convert Codegen Expand Proj Proj2 Proj3.
 From Entrait.Proofs Require Import Base Sem.
 Import ListNotations.
 Local Open Scope list_scope.
@@ -12,9 +12,10 @@ Definition eval_provider_call (params : list string) (body : toks) : option even
       match core with
       | [s; d1; h1; TG Paren []; d2; TId m; TG Paren args] =>
           (* self . as_ref ( ) . m ( args ) *)
-          if is_id "self" s && is_p "." d1 && is_id "as_ref" h1 && is_p "." d2 then
+          (* self . as_ref|into_inner ( ) . m ( args ) *)
+          if is_id "self" s && is_p "." d1 && (is_id "as_ref" h1 || is_id "into_inner" h1) && is_p "." d2 then
             match read_args args with
-            | Some names => Some (mkEvent (CProvider ["as_ref"%string] m) (map (lookup params) names) aw)
+            | Some names => Some (mkEvent (CProvider [if is_id "into_inner" h1 then "into_inner"%string else "as_ref"%string] m) (map (lookup params) names) aw)
             | None => None
             end
           else None
@@ -64,7 +65,7 @@ Definition c06_expected_event (a : trait_attr) (s : sig) : option event :=
   | None, Some (ByRef RBorrow) => Some (mkEvent (CProvider ["as_ref"; "borrow"]%string (s_name s)) (map VArg (seq 0 n)) (s_async s))
   | Some it, Some (ByTrait _) => Some (mkEvent (CTarget it (s_name s)) (VSelf :: map VArg (seq 0 n)) (s_async s))
   | Some _, Some (ByRef _) => None      (* dynamic inversion: not covered by this evaluator *)
-  | _, _ => Some (mkEvent (CProvider ["as_ref"%string] (s_name s)) (map VArg (seq 0 n)) (s_async s))
+  | _, _ => Some (mkEvent (CProvider [if plain_self_by_value s then "into_inner"%string else "as_ref"%string] (s_name s)) (map VArg (seq 0 n)) (s_async s))
   end.
 
 Theorem eval_c06_call a ca s ev :
@@ -84,6 +85,7 @@ Proof.
   remember (typed_names s) as params eqn:HP. remember (s_name s) as m eqn:Hm.
   remember (map VArg (seq 0 (List.length params))) as VS eqn:HVS.
   clear HX HP Hm HVS Hn Hs.
+  destruct (plain_self_by_value s);
   destruct (ta_impl_trait a) as [it|]; destruct (ta_delegate a) as [[|[|]|d]|]; try discriminate He;
     injection He as <-; destruct (s_async s); cbn; rewrite ?Hr, ?Hrs, ?Hl, ?Hls; try reflexivity;
     try (destruct X; reflexivity);
